@@ -5,6 +5,7 @@ import random
 import re
 
 import wee
+from c16 import c16
 
 VERIF = wee.VERIF
 
@@ -111,7 +112,7 @@ def sq(name):
 
 
 def c01(res, tier, seed, deep):
-    n = 30000 if tier == "thorough" else (6000 if deep else 1500)
+    n = 40000 if tier == "thorough" else (12000 if deep else 5000)
     fens = positions(seed, n)
     reqs = ["moves " + f for f in fens]
     rnd = random.Random(seed)
@@ -139,7 +140,7 @@ def c01(res, tier, seed, deep):
 
 
 def c02(res, tier, seed, deep):
-    n = 12000 if tier == "thorough" else (3000 if deep else 800)
+    n = 20000 if tier == "thorough" else (6000 if deep else 2500)
     fens = positions(seed + 17, n)
     rnd = random.Random(seed)
     reqs = ["succ " + f for f in fens]
@@ -281,7 +282,7 @@ def kxk_positions(rnd, n):
 
 
 def c05(res, tier, seed, deep):
-    n = 20000 if tier == "thorough" else (5000 if deep else 1500)
+    n = 40000 if tier == "thorough" else (12000 if deep else 5000)
     rnd = random.Random(seed)
     fens = positions(seed + 13, n) + kxk_positions(rnd, n * 2)
     reqs = []
@@ -305,7 +306,7 @@ def c05(res, tier, seed, deep):
 
 
 def c13(res, tier, seed, deep):
-    n = 12000 if tier == "thorough" else (3000 if deep else 1000)
+    n = 25000 if tier == "thorough" else (8000 if deep else 3000)
     rnd = random.Random(seed)
     fens = positions(seed + 15, n) + kxk_positions(rnd, n)
     reqs = []
@@ -368,7 +369,7 @@ def check_lines(res, pid, req_fen_outs, want_report=True, mate_oracle=True):
     winning terminal evaluations are true mates. req_fen_outs: [(request, fen, impl_out, has_moves)]"""
     lreqs, owners = [], []
     for req, fen, out, has_moves in req_fen_outs:
-        if out in ("panic", "<no-output>") or out.startswith("search-thread-panicked") or out.startswith("not-joined"):
+        if out in ("panic", "<no-output>", "<hang>", "<died>") or out.startswith("search-thread-panicked") or out.startswith("not-joined"):
             res.add(req + " #outcome", out, out, "ends-normally", lambda x: x)
             continue
         res.add(req + " #outcome", "ends-normally", "ends-normally", "ends-normally", None)
@@ -405,7 +406,8 @@ def has_moves_map(fens):
 
 def exact_searches(res, reqs):
     """single-worker searches: the real event sequence must equal the model's prediction"""
-    impl, rc, err = wee.run_lines_parallel(wee.harness_path(), reqs, jobs=8)
+    # the real code gets a time limit: a search that does not come back is a finding, not a stuck check
+    impl, rc, err = wee.run_lines_parallel(wee.harness_path(), reqs, jobs=8, timeout=900, per_request_timeout=120)
     drv, rc2, err2 = wee.run_driver(reqs, jobs=14)
     for r, i, (m, s) in zip(reqs, impl, drv):
         res.add(r, i, m, "-", None)
@@ -422,8 +424,8 @@ def c19(res, tier, seed, deep):
     except OSError:
         pass
     rnd = random.Random(seed)
-    n = 60 if tier == "thorough" else (24 if deep else 10)
-    fens = rnd.sample(positions(seed + 19, 400), n)
+    n = 200 if tier == "thorough" else (80 if deep else 40)
+    fens = rnd.sample(positions(seed + 19, 600), n)
     reqs = []
     for f in fens:
         sd = rnd.getrandbits(32)
@@ -464,8 +466,8 @@ def related_variants(f, rnd):
 
 def c03(res, tier, seed, deep):
     rnd = random.Random(seed)
-    n = 80 if tier == "thorough" else (24 if deep else 10)
-    pool = positions(seed + 23, 500)
+    n = 300 if tier == "thorough" else (100 if deep else 40)
+    pool = positions(seed + 23, 800)
     hm0 = has_moves_map(pool)
     pool = [f for f in pool if hm0.get(f)]
     fens = rnd.sample(pool, n)
@@ -533,18 +535,21 @@ def c04(res, tier, seed, deep):
     # (a) terminal roots end normally and report no move; depth limits incl. none
     # mate by queen, stalemate, back-rank mate, stalemate in the corner, fool's mate
     terminal = ["7k/6Q1/6K1/8/8/8/8/8 b - - 0 1", "7k/5Q2/6K1/8/8/8/8/8 b - - 0 1", "3R2k1/5ppp/8/8/8/8/8/4K3 b - - 0 1",
-                "K7/8/8/8/8/8/5Q2/7k b - - 0 1", "rnb1kbnr/pppp1ppp/8/4p3/6Pq/5P2/PPPPP2P/RNBQKBNR w KQkq - 1 3"]
+                "K7/8/8/8/8/8/5Q2/7k b - - 0 1", "rnb1kbnr/pppp1ppp/8/4p3/6Pq/5P2/PPPPP2P/RNBQKBNR w KQkq - 1 3",
+                # mates along a line with a free square behind the king (slider checks), both colours
+                "R5k1/5ppp/8/8/8/8/8/4K3 b - - 0 1", "1R4k1/R7/8/8/8/8/8/K7 b - - 0 1", "4k3/8/8/8/8/8/PPP5/1K5r w - - 0 1",
+                "6k1/5p1p/5BpQ/8/8/8/8/6K1 b - - 0 1".replace("5BpQ", "5Bp1").replace("6k1/5p1p", "6k1/5pQp")]
     reqs = []
     for f in terminal:
         for d in ("1", "2", "5", "-"):
             reqs.append(f"search {rnd.getrandbits(32)} {d} 1 - 2 16 0 {f}")
     # (b) depth-limited searches finish by themselves (one worker exact)
-    n = 40 if tier == "thorough" else (16 if deep else 6)
+    n = 150 if tier == "thorough" else (60 if deep else 24)
     for f in rnd.sample(pool, n):
         reqs.append(f"search {rnd.getrandbits(32)} {rnd.choice([1, 2, 3])} 1 - 2 64 0 {f}")
     # (c) Stop at a counted instant: the k-th poll of the flag (every 10000 counted nodes)
-    cn = 10 if tier == "thorough" else (3 if deep else 1)
-    for f in rnd.sample(MIDGAME, min(len(MIDGAME), cn)):
+    cn = 20 if tier == "thorough" else (8 if deep else 4)
+    for f in [rnd.choice(MIDGAME) for _ in range(cn)]:
         k = rnd.choice([0, 0, 1])
         reqs.append(f"search {rnd.getrandbits(32)} {rnd.choice(['-', '6'])} 1 {k} 4 256 0 {f}")
     impl = exact_searches(res, reqs)
@@ -556,16 +561,16 @@ def c04(res, tier, seed, deep):
     check_lines(res, "C04", items, want_report=False)
     # (d) several workers with Stop at a counted poll
     mreqs = [f"search {rnd.getrandbits(32)} - {rnd.choice([2, 8])} {rnd.choice([0, 3])} 4 256 0 {f}" for f in rnd.sample(MIDGAME, 2 if tier == "thorough" or deep else 1)]
-    mout, _, _ = wee.run_lines_parallel(wee.harness_path(), mreqs, jobs=2)
+    mout, _, _ = wee.run_lines_parallel(wee.harness_path(), mreqs, jobs=2, timeout=900, per_request_timeout=120)
     check_lines(res, "C04", [(r, " ".join(r.split(" ")[8:]), o, True) for r, o in zip(mreqs, mout)], want_report=False)
     # (e) public API under wall-clock Stop: join latency, receiver kept or dropped, repeated Stop, artifact reusable
     sn = 40 if tier == "thorough" else (12 if deep else 6)
     sreqs = []
-    cand = MIDGAME + rnd.sample(pool, 6) + terminal[:2]
+    cand = MIDGAME + rnd.sample(pool, 6) + terminal
     for _ in range(sn):
         f = rnd.choice(cand)
         sreqs.append(f"stoptest {rnd.getrandbits(32)} {rnd.choice(['-', '-', '3', '50'])} {rnd.choice([0, 0, 5, 40, 150, 400])} {rnd.choice([0, 1])} {rnd.choice([1, 1, 3])} {f}")
-    sout, _, _ = wee.run_lines(wee.harness_path(), sreqs, timeout=3600)
+    sout, _, _ = wee.run_lines(wee.harness_path(), sreqs, timeout=1800, per_request_timeout=60)
     worst = 0
     for r, o in zip(sreqs, sout):
         m = re.match(r"joined latency_ms=(\d+) bests=(\d+) lines_nonempty=(\w+) artifact_reusable=(\w+) has_moves=(\w+)", o)
@@ -591,7 +596,7 @@ def mate_positions(seed, n, limit):
 
 def c06(res, tier, seed, deep):
     rnd = random.Random(seed)
-    n = 120 if tier == "thorough" else (40 if deep else 16)
+    n = 400 if tier == "thorough" else (120 if deep else 60)
     mates = mate_positions(seed, n, 5 if tier == "thorough" else 3)
     reqs, meta = [], []
     for d, keep, f in mates:
@@ -625,7 +630,7 @@ def c06(res, tier, seed, deep):
 
 def c17(res, tier, seed, deep):
     rnd = random.Random(seed)
-    n = 150 if tier == "thorough" else (60 if deep else 24)
+    n = 500 if tier == "thorough" else (200 if deep else 80)
     mates = [m for m in mate_positions(seed + 3, n, 3) if m[1] >= 2]
     kreqs = [f"matekeep {d} {f}" for d, k, f in mates]
     drv, _, _ = wee.run_driver(kreqs, jobs=8)
@@ -838,7 +843,7 @@ def random_placement(rnd):
 
 
 def c10(res, tier, seed, deep):
-    n = 15000 if tier == "thorough" else (4000 if deep else 1000)
+    n = 30000 if tier == "thorough" else (10000 if deep else 4000)
     rnd = random.Random(seed)
     fens = positions(seed + 3, n)
     fens += [random_placement(rnd) for _ in range(n // 2)]
@@ -886,7 +891,7 @@ def c11(res, tier, seed, deep):
 
 
 def c12(res, tier, seed, deep):
-    n = 2500 if tier == "thorough" else (600 if deep else 150)
+    n = 4000 if tier == "thorough" else (1200 if deep else 500)
     fens = positions(seed + 7, n)
     rc, out, err = wee.run([wee.DRIVER, "sanreqs"], input_text="\n".join(fens) + "\n", timeout=3600)
     reqs = [l for l in out.split("\n") if l.strip()]
@@ -1154,6 +1159,7 @@ CHECKS = {
     "C03": (c03, ["searcher", "hasher", "state", "eval", "movegen"]),
     "C04": (c04, ["searcher", "uci", "eval"]),
     "C06": (c06, ["searcher", "eval", "eval_squares", "eval_worths", "eval_edge", "eval_pawns"]),
+    "C16": (c16, ["buildrs", "enginebook", "corebook", "notation", "hasher"]),
     "C17": (c17, ["searcher", "hasher"]),
     "C19": (c19, ["searcher", "eval", "movegen"]),
     "C05": (c05, ["eval", "eval_squares", "eval_worths", "eval_edge", "eval_pawns", "board"]),
